@@ -2,8 +2,9 @@
 
 ``install(events, spec)`` wraps, in the process that calls ``run_pynguin_with_master_worker`` (the driver):
 
-* ``RunningTask._start_worker``  -> ``{"ev": "start", "idx", "mst", "subprocess", "pid", "t"}``  (``mst`` is the task's
-  ``configuration.stopping.maximum_search_time`` at the moment the worker is forked)
+* ``RunningTask._start_worker``  -> ``{"ev": "start", "idx", "mst", "subprocess", "pid", "t", "start_time"}``  (``mst`` is the
+  task's ``configuration.stopping.maximum_search_time`` at the moment the worker is forked, ``start_time`` the master's
+  ``_start_time`` for this worker)
 * ``RunningTask._adjust_search_time_after_crash`` -> ``{"ev": "adjust", "elapsed", "before", "after"}``
 * ``RunningTask._restart`` -> ``{"ev": "restart", "ret", "mst_before", "mst_after", "restart_count", "t"}``
 * ``RunningTask.get_result`` (recursive: only the outermost call reports) -> ``{"ev": "task-result", ...}``
@@ -240,6 +241,7 @@ def install(events, spec=None):
         finally:
             try:
                 ev["pid"] = self._worker_process.pid
+                ev["start_time"] = self._start_time  # the master's own reference point for "elapsed"
             except Exception:  # noqa: BLE001
                 pass
 
